@@ -34,6 +34,7 @@ class Constraint:
     value_text: str = ""
     facts: frozenset = frozenset()  # (text, polarity) facts holding where the refusing test is evaluated
     from_fact: bool = False  # a conjunct that reached the refusal as a dominating branch fact, not in the test itself
+    mirror: bool = False  # the same comparison read from its right operand
 
     def show(self) -> str:
         v = self.value if self.value is not UNKNOWN else self.value_text
@@ -153,7 +154,13 @@ def _cmp(ctx, fi, left, op, right, pol, node, env) -> list[Constraint]:
     if lv is not UNKNOWN and rv is UNKNOWN and o in FLIP:
         # constant on the left: 0 < x  ->  x > 0
         return [Constraint(_t(fi, right), FLIP[o], lv, node, _t(fi, left))]
-    return [Constraint(_t(fi, left), o, rv, node, _t(fi, right))]
+    out = [Constraint(_t(fi, left), o, rv, node, _t(fi, right))]
+    if o in FLIP and lv is UNKNOWN and rv is UNKNOWN:
+        # two expressions: the same comparison read from the other side (`dust > sats` is `sats < dust`)
+        c = Constraint(_t(fi, right), FLIP[o], lv, node, _t(fi, left))
+        c.mirror = True
+        out.append(c)
+    return out
 
 
 class ConsList(list):
